@@ -53,9 +53,9 @@ def gen_cases(tier, seed):
         for sparse in (False, True):
             yield C(w="diag", shape=[nel] * nel, nel=nel, sparse=sparse, with_shape=False)
     # identity tensors
-    for order in (2, 4) + ((6,) if tier == "thorough" else ()):
+    for order in (2, 4, 6):
         for size in (1, 2, 3):
-            if order == 6 and size == 3:
+            if order == 6 and size == 3 and tier == "quick":
                 continue
             for mo in (None, "F", "C"):
                 yield C(w="eye", order=order, size=size, mo=mo)
